@@ -101,7 +101,12 @@ func runC06(c *Ctx) {
 			sw.AddFileNamedLikeAGlobal(r.Fork(0x66696c66))
 			c.Count("workspaces_with_a_file_named_like_a_global", 1)
 		}
-		if r.Fork(0x726f6f74).Chance(1, 8) {
+		if len(sw.Files) >= 2 && r.Fork(0x6c617465).Chance(1, 5) {
+			// one file is created on disk only after the server has loaded the others
+			sw.Late = sw.Files[len(sw.Files)-1].Rel
+			c.Count("workspaces_with_a_file_created_later", 1)
+		}
+		if sw.Late == "" && r.Fork(0x726f6f74).Chance(1, 8) {
 			sw.Reroot([]string{"rootA", "rootB"}) // the files are spread over two workspace folders next to each other
 			c.Count("multi_root_workspaces", 1)
 		}
